@@ -164,6 +164,14 @@ CLAIMS = {
             "the real TokenManager/MessageManager with notifications as datagrams (ACK/RST reactions after the end).",
             "clock stub for protocol.time; SimLoop; fake datagram transport; pipe-level obligations emulate TokenManager's is_last rule",
             TECH_E1, "DESIGN.md 5 C07"),
+    "C20": ("Histories of 3 (4) operations chosen by symbolic index over 26 operations (register / re-register with valid, invalid and "
+            "absent lt, explicit base, unsuitable or extra parameters, sectors; update by POST with/without body and by PUT; delete; "
+            "unknown location; passage of a solver-chosen number of seconds), also starting from two live registrations, run on "
+            "the real StandaloneResourceDirectory site; after every operation endpoint and resource lookups and every registration "
+            "resource are compared with a reference model (latest successful write + lt + grace), locations are kept on "
+            "re-registration and never shared, and a 4.xx answer leaves everything unchanged.",
+            "pipe-level driver, SimLoop in integer seconds, fake remote with a fixed base URI; lookups (concrete data) run natively inside the symbolic path; simple registration and proxying outside",
+            TECH_E1 + " (operation histories by symbolic index, symbolic time step)", "DESIGN.md 5 C20"),
 }
 
 NOT_YET = "check under construction in this build (see DESIGN.md section 5); not claimed until its obligations are confirmed on the tree"
